@@ -9,8 +9,8 @@ import (
 	"math"
 	"os"
 	"path/filepath"
-	"runtime"
 	"runtime/debug"
+	"runtime/metrics"
 	"strings"
 
 	"verifsim/reftable"
@@ -326,6 +326,17 @@ func (s *countingBytes) ReadBlock(off uint64, sz int) ([]byte, error) {
 
 const corruptIterCap = 1 << 16
 
+// allocation by a single API call (the simulator runs one call at a time)
+var maxCallAlloc uint64
+var maxCallAllocLabel string
+
+var allocSample = []metrics.Sample{{Name: "/gc/heap/allocs:bytes"}}
+
+func allocBytes() uint64 {
+	metrics.Read(allocSample)
+	return allocSample[0].Value.Uint64()
+}
+
 func drainCap(next func() (bool, error)) (int, error) {
 	for n := 0; ; n++ {
 		ok, err := next()
@@ -342,6 +353,13 @@ func drainCap(next func() (bool, error)) (int, error) {
 func readWorkload(tab reftable.Table, hs int, names []string) (what, site string) {
 	run := func(label string, f func() error) bool {
 		var err error
+		a0 := allocBytes()
+		defer func() {
+			if d := allocBytes() - a0; d > maxCallAlloc {
+				maxCallAlloc = d
+				maxCallAllocLabel = label
+			}
+		}()
 		func() {
 			defer func() {
 				if r := recover(); r != nil {
@@ -436,8 +454,7 @@ func ExecuteCorrupt(spec *RunSpec, opts RunOpts) *RunResult {
 	}
 	hs := spec.Cfg.HashSize()
 	names := []string{"refs/heads/n000", "refs/heads/n00", "refs/heads/n010", "refs/heads/n059", "refs/heads/n999", "a", "zzzz", "refs/heads/n003\x00"}
-	var ms0, ms1 runtime.MemStats
-	runtime.ReadMemStats(&ms0)
+	maxCallAlloc, maxCallAllocLabel = 0, ""
 	calls, rbytes, maxReq := 0, int64(0), 0
 	switch cs.Mode {
 	case "stack":
@@ -536,17 +553,18 @@ func ExecuteCorrupt(spec *RunSpec, opts RunOpts) *RunResult {
 			calls, rbytes = bsrc.calls, bsrc.bytes
 		}
 	}
-	runtime.ReadMemStats(&ms1)
-	alloc := ms1.TotalAlloc - ms0.TotalAlloc
 	sz := int64(len(dam)) + 1
 	if len(res.Violations) == 0 {
 		if int64(calls) > 5000+sz*20 || rbytes > (1<<22)+sz*20000 {
 			viol("read-budget", "calls", fmt.Sprintf("%d ReadBlock calls returning %d bytes for a %d-byte table", calls, rbytes, len(dam)))
-		} else if alloc > (64<<20)+uint64(sz)*20000 {
-			viol("allocation", "total", fmt.Sprintf("%d bytes allocated while reading a %d-byte table", alloc, len(dam)))
+		} else if maxCallAlloc > (64<<20)+uint64(sz)*1000 {
+			viol("allocation", maxCallAllocLabel, fmt.Sprintf("a single %s call allocated %d bytes while reading a %d-byte table", maxCallAllocLabel, maxCallAlloc, len(dam)))
 		} else if maxReq > 64<<20 {
 			viol("allocation", "request", fmt.Sprintf("a single ReadBlock request of %d bytes for a %d-byte table", maxReq, len(dam)))
 		}
+	}
+	if maxCallAlloc > 1<<20 {
+		res.Probes["corrupt-call-allocated-over-1MiB"]++
 	}
 	res.Probes["corrupt-mode-"+cs.Mode]++
 	res.Interleave = simrt.HashStr(uint64(len(dam)), string(dam))
